@@ -312,6 +312,28 @@ func genXmpInputs(c *Ctx, n int) []epInput {
 	return out
 }
 
+// genXmpTruncated: generated packets (one third attribute form, two thirds element form), half of them cut off at a
+// random place, plus packets made of n short attributes (or n short elements) that end without the closing tags.
+func genXmpTruncated(c *Ctx, n int) []epInput {
+	var out []epInput
+	for i, in := range genXmpInputs(c, n) {
+		b := in.Data
+		if i%2 == 1 && len(b) > 0 {
+			b = b[:c.Rng.Intn(len(b))]
+		}
+		out = append(out, epInput{fmt.Sprintf("gen/t%d.xmp", i), b, "gen"})
+	}
+	head := `<x:xmpmeta xmlns:x="adobe:ns:meta/"><rdf:RDF xmlns:rdf="http://www.w3.org/1999/02/22-rdf-syntax-ns#"><rdf:Description rdf:about=""`
+	for _, reps := range []int{8, 20, 40, 80, 160, 400} {
+		out = append(out, epInput{fmt.Sprintf("gen/dense-attr%d.xmp", reps), []byte(head + strings.Repeat(` a:b="c"`, reps)), "gen"})
+		out = append(out, epInput{fmt.Sprintf("gen/dense-attr-known%d.xmp", reps), []byte(head + strings.Repeat(` tiff:Make='c'`, reps)), "gen"})
+		out = append(out, epInput{fmt.Sprintf("gen/dense-elem%d.xmp", reps), []byte(head + ">" + strings.Repeat(`<a:b>c</a:b>`, reps)), "gen"})
+		out = append(out, epInput{fmt.Sprintf("gen/dense-solo%d.xmp", reps), []byte(head + ">" + strings.Repeat(`<a:b/>`, reps)), "gen"})
+		out = append(out, epInput{fmt.Sprintf("gen/dense-li%d.xmp", reps), []byte(head + "><dc:subject><rdf:Bag>" + strings.Repeat(`<rdf:li>c</rdf:li>`, reps)), "gen"})
+	}
+	return out
+}
+
 // C08 — results do not depend on how the reader chunks its data
 func runC08(c *Ctx) error {
 	c.Res.Rule = "every decode entry point x (sample files, crafted files, generated well-formed Exif files in TIFF/JPEG/PNG/HEIF, mutations) under: plain in-memory reader (reference); one byte at a time; two alternating small chunk sizes; random positive chunk schedule; last bytes delivered together with io.EOF; all of them combined. The canonical result (value and error class) must equal the reference. Non-trivial: reference result carries at least one field or a specific error; distinct by (entry, bytes, schedule)."
